@@ -175,6 +175,22 @@ fn plan(dir: &Path, tier: Tier, r: &mut Rng) -> Vec<Job> {
             jobs.push(Job { file: f.clone(), kind: 1, at: *p, bit: 0 });
             jobs.push(Job { file: f.clone(), kind: 2, at: *p, bit: r.below(8) as u8 });
         }
+        if f.starts_with("wal/") {
+            // every bit of every record header of the commit-log tail (crc | length | type)
+            if let Ok((recs, _)) = verif_wal_read_segment(&dir.join(&f)) {
+                let mut start = 0u64;
+                for (_, end) in recs {
+                    for b in 0..7u64 {
+                        for bit in 0..8u8 {
+                            if start + b < len {
+                                jobs.push(Job { file: f.clone(), kind: 2, at: start + b, bit });
+                            }
+                        }
+                    }
+                    start = end;
+                }
+            }
+        }
         if is_table {
             let stride = tier.pick(11, 1);
             let mut t = 0;
@@ -331,10 +347,38 @@ pub fn shard_main(args: &[String]) -> i32 {
                 json!({"verdict": if errs + errs2 > 0 { "read_errors" } else { "all_original" }, "errors": errs + errs2})
             })
         }));
-        let out = match res {
+        let mut out = match res {
             Ok(j) => j,
             Err(_) => json!({"verdict": "panic", "what": crate::panics::take_last()}),
         };
+        // commit-log alterations once more in absolute-consistency mode: there is no repair,
+        // so the store must refuse to open or serve exactly what was written
+        if is_wal && out["verdict"] != "wrong_data" && out["verdict"] != "panic" {
+            let _ = std::fs::remove_dir_all(&work);
+            if crate::props::c12::copy_dir(&src, &work).is_ok() {
+                let _ = std::fs::remove_file(work.join("LOCK"));
+                let _ = std::fs::write(&fp, &bytes);
+                let strict = Cfg { absolute_consistency: true, ..cfg.clone() };
+                let only_full: Vec<&State> = vec![&full];
+                let r2 = std::panic::catch_unwind(std::panic::AssertUnwindSafe(|| {
+                    rt.block_on(async {
+                        let t = match strict.open(&work) {
+                            Ok(t) => t,
+                            Err(_) => return None,
+                        };
+                        let (g, f, b) = read_battery(&t, &keys);
+                        let w = judge(&only_full, &g, &f, &b);
+                        crate::e2::close_tree(t).await;
+                        w
+                    })
+                }));
+                match r2 {
+                    Ok(None) => {}
+                    Ok(Some(w)) => out = json!({"verdict": "wrong_data", "what": w, "phase": "opened in absolute-consistency mode"}),
+                    Err(_) => out = json!({"verdict": "panic", "what": crate::panics::take_last(), "phase": "absolute-consistency mode"}),
+                }
+            }
+        }
         println!("DONE {} {}", ji, out);
     }
     let _ = std::fs::remove_dir_all(&work);
@@ -467,7 +511,7 @@ pub fn run(a: &Args) -> i32 {
     run.cov("verdicts", json!(verdicts));
     run.cov("classes", json!(classes));
     run.assumptions = vec![
-        "commit-log alterations are judged with the semantics of the (default) repairing recovery mode: the state may be any commit prefix that keeps every record lying wholly before the alteration (property C12); for table and value-log files only the originally written data or an error is accepted".into(),
+        "commit-log alterations are judged twice: in the (default) repairing recovery mode the state may be any commit prefix that keeps every record lying wholly before the alteration (property C12); in absolute-consistency mode - as for table and value-log files in any mode - only the originally written data or an error is accepted".into(),
         "value log read with VLogChecksumLevel::Full as the property requires; manifest files are not altered (the property names table, commit-log and value-log files)".into(),
         "quick tier: stratified sample of positions (first 48 and last 64 bytes of every file + 260 seeded positions; files up to 600 bytes exhaustively; table truncation every 11th offset); thorough tier: every byte position and every truncation offset".into(),
     ];
